@@ -107,7 +107,9 @@ func enumerate(d *document) []faults.Fault {
 	case "html":
 		out = append(out, faults.EnumMarkup(d.data, "")...)
 		out = append(out, faults.EnumBytes(d.data, 4096)...)
-		for _, depth := range []int{100, 1000, 10000, 60000} {
+		// depth is kept moderate: the HTML parser of golang.org/x/net v0.20.0 (a dependency, not
+		// instrumented) is quadratic in nesting depth, which is slow but not non-termination
+		for _, depth := range []int{100, 1000, 5000} {
 			out = append(out, faults.Fault{Layer: "token", Kind: "append", S: faults.DeepNesting("<div>", "</div>", depth)},
 				faults.Fault{Layer: "token", Kind: "append", S: faults.DeepNesting("<ul><li>", "</li></ul>", depth/2)},
 				faults.Fault{Layer: "token", Kind: "append", S: faults.DeepNesting("<table><tr><td>", "</td></tr></table>", depth/4)},
@@ -161,6 +163,10 @@ func apply(d *document, set []faults.Fault) []byte {
 }
 
 const blockSize = 48
+
+// maxBadPerRun: a run stops evaluating after this many violations (each hang costs
+// the full step budget; the tree is failing anyway and the rest is reported by later runs).
+const maxBadPerRun = 5
 
 func docsPerFormat(tier string) int {
 	if tier == "thorough" {
@@ -288,15 +294,31 @@ func (p *Prop) Execute(c *sim.Case, env *sim.Env) *sim.Result {
 			if inflight && !isStreamOp(op) {
 				continue
 			}
-			budget := 300*base[op].steps + 1_000_000
+			// the bound must let every computation through whose length is polynomial in the
+			// size of the damaged image (a sheet with a cell in row 65536 legitimately costs a
+			// few hundred thousand steps) and stop those whose length is set by a number in the
+			// file (2^31 iterations from a ten-digit field): 300 x baseline, scaled by the growth
+			// of the image, plus 2*10^8 steps.
+			ratio := int64(1)
+			if len(d.data) > 0 && len(img) > len(d.data) {
+				ratio = int64(len(img)/len(d.data)) + 1
+			}
+			budget := 300*base[op].steps*ratio + 200_000_000
 			var h uint64
 			var inj *injector
 			if inflight {
 				inj = &injector{failAt: int(set[0].A), seed: uint64(set[0].B)}
 			}
 			before := t.Total
+			if len(subs) >= maxBadPerRun {
+				res.Count("evaluations_skipped_after_many_violations", 1)
+				continue
+			}
 			oc := sim.Guard(t, budget, func() error { var err error; h, err = runOp(op, path, img, inj); return err })
 			nEval++
+			if oc.Bad() && env.Tick != nil {
+				env.Tick()
+			}
 			res.Steps += t.Total - before
 			key := "fault." + kindKey(set)
 			res.Count(key+".injected", 1)
